@@ -40,6 +40,7 @@ def showEv : Ev → String
   | .wrData c n k f => s!"d{c}.{n}.{short k}.{toHex f}"
   | .wrV2 c f => s!"v{c}.{toHex f}"
   | .accept c k => s!"a{c}.{short k}"
+  | .forget c => s!"f{c}"
   | .closed c => s!"x{c}"
 
 def showOutcome : Outcome → String
